@@ -1,6 +1,6 @@
 (* PV.C11.Refuted — counter-models: for every guard conjunct that exists because the CODE fails,
    a concrete collection on which the unguarded statement is false (each reproduced on the real
-   pharmpy classes by the check: open findings C11-JOIN-FILL-INBLOCK-ZERO, C11-UNJOIN-ORDER), and
+   pharmpy classes by the check: open findings C11-JOIN-FILL-INBLOCK-ZERO, C11-UNJOIN-ORDER, C11-CJD-COV-PARAM-MISNAMED), and
    regression examples of the repaired behaviour for the two fixed ones (C11-JOIN-FILL-ZERO-VARIANCE
    a9c876f, C11-UCP-NEGATIVE-COVARIANCE 859061b). *)
 From Coq Require Import List Bool PArith Arith Lia Reals Lra.
@@ -74,16 +74,14 @@ Proof.
   repeat split; try (vm_compute; reflexivity); vm_compute; intro H; discriminate.
 Qed.
 
-(* create_joint_distribution(model) with rvs=None when every IIV eta has a fixed parameter: the selection is
-   empty, `join([])` runs into joined_rvs[0] -> IndexError (finding C11-CJD-EMPTY-SELECTION-INDEXERROR) *)
-Theorem cjd_default_total_refuted :
-  exists (r : scoll) (fixed : id -> bool) pn (p : list (id * nat)),
-    wf sym r = true /\ default_rvs fixed r = [] /\
-    create_joint_distribution_default nat 0 Nat.mul (fun n => n) (fun n => n) 1 (fun _ _ => None) fixed pn p r = Err IndexError.
-Proof.
-  exists cjd_coll, (fun _ => true), [], [(21%positive, 4); (22%positive, 9); (23%positive, 16)].
-  repeat split; vm_compute; reflexivity.
-Qed.
+(* regression (finding C11-CJD-EMPTY-SELECTION-INDEXERROR, fixed in 73b8b8c): create_joint_distribution(model)
+   with rvs=None when every IIV eta has a fixed parameter — the selection is empty; it used to end in IndexError
+   (join([]) indexes joined_rvs[0]), now it is the documented ValueError *)
+Example cjd_default_empty_fixed :
+  default_rvs (fun _ => true) cjd_coll = [] /\
+  create_joint_distribution_default nat 0 Nat.mul (fun n => n) (fun n => n) 1 (fun _ _ => None) (fun _ => true) []
+    [(21%positive, 4); (22%positive, 9); (23%positive, 16)] cjd_coll = Err ValueError.
+Proof. split; vm_compute; reflexivity. Qed.
 
 (* ---- regression (finding C11-UCP-NEGATIVE-COVARIANCE, fixed in 859061b) -----------------------------
    A = [[1, -1/2], [-1/2, 5/4]] has the Cholesky factor L = [[1, 0], [-1/2, 1]]; with all UCPs equal to 0.1
